@@ -15,4 +15,5 @@ var defaultModels = map[string]string{
 	"go.uber.org/multierr.Append":      "verifModelMultierrAppend",
 	"encoding/binary.Write":            "verifModelBinaryWrite",
 	"encoding/binary.Read":             "verifModelBinaryRead",
+	"(time.Time).AddDate":              "verifModelAddDate",
 }
